@@ -25,8 +25,12 @@ OUT = os.path.join(VERIF, "coq", "Conc", "Gen_PoolSync.v")
 
 
 def strip_comments(txt):
+    """comments out; also the add-only verification hooks (#ifdef OPENSMT_VERIF ... #endif), which are
+    not part of the production code the model is about (line structure is kept)"""
     txt = re.sub(r"/\*.*?\*/", lambda m: "\n" * m.group(0).count("\n"), txt, flags=re.S)
-    return re.sub(r"//[^\n]*", "", txt)
+    txt = re.sub(r"//[^\n]*", "", txt)
+    return re.sub(r"^[ \t]*#[ \t]*ifdef[ \t]+OPENSMT_VERIF\b.*?^[ \t]*#[ \t]*endif[^\n]*", lambda m: "\n" * m.group(0).count("\n"),
+                  txt, flags=re.S | re.M)
 
 
 def block_after(txt, pos):
